@@ -165,6 +165,7 @@ def call_builtin(it, name, pos, kw):
             return tuple(items) if name == "tuple" else list(items)
         if isinstance(x, Arr) and x.ndim == 1:
             b = Arr(x.shape, x.fn, x.dtype, kind=name)
+            b.value_of = (x, x.version)  # same entries as x had at this point (definitional ghosts of x apply to it)
             return b
         if isinstance(x, I.SymRange):
             return Arr((x.length(),), x.item, "int", kind=name)
@@ -274,7 +275,21 @@ def call_builtin(it, name, pos, kw):
     if name == "type":
         return Opaque("type")
     if name == "round":
-        raise PathAbort("round()", ctx.cur_line)
+        if len(pos) != 1 or kw:
+            raise PathAbort("round(x, ndigits)", ctx.cur_line)
+        x = pos[0]
+        if isinstance(x, Arr):
+            if x.ndim != 0:
+                raise PathAbort("round() of an array", ctx.cur_line)
+            x = x.fn()
+        if isinstance(x, (int, float)):
+            return round(x)
+        if T.sort_of(x) == "int":
+            return x
+        # an integer nearest to x (which of the two for ties -- Python rounds half to even -- is left open)
+        r = T.fresh_int("round")
+        ctx.assume(z3.And(2 * x - 1 <= 2 * z3.ToReal(r), 2 * z3.ToReal(r) <= 2 * x + 1), trusted="python:round(x) is an integer within 1/2 of x")
+        return r
     if name == "divmod":
         a, b = pos
         return (T.floordiv(a, b), T.mod(a, b))
